@@ -141,24 +141,19 @@ def check_claimed_stack(w, parsed):
         return w.clo(i)
 
     main_up = []
+    from .parse import RE_SETUP, RE_SETUP_START, RE_TEARDOWN_START, RE_RAN
     for blk in parsed.blocks:
-        up = [] if blk.subprocess else main_up
-        events = []
+        up = main_up
+        in_child = False
         for line in blk.lines:
-            from .parse import RE_SETUP, RE_SETUP_START, RE_TEARDOWN_START, RE_RAN
+            if line == '  Running in a subprocess.':
+                # everything before this line was printed by the parent, the rest by a fresh process
+                up = []
+                in_child = True
+                continue
             m = RE_SETUP_START.match(line)
             if m:
-                events.append(('setup', m.group(1), bool(RE_SETUP.match(line))))
-                continue
-            m = RE_TEARDOWN_START.match(line)
-            if m:
-                events.append(('teardown', m.group(1), None))
-                continue
-            m = RE_RAN.match(line)
-            if m:
-                events.append(('ran', int(m.group(1)), None))
-        for kind, a, ok in events:
-            if kind == 'setup':
+                a = m.group(1)
                 i = idx(a)
                 if i in up:
                     viol.append(('C01/claimed-setup-while-set-up', 'output: "Set up %s" while it is set up' % a))
@@ -166,24 +161,30 @@ def check_claimed_stack(w, parsed):
                     if b not in up:
                         viol.append(('C01/claimed-setup-before-base', 'output: "Set up %s" before its base %s'
                                      % (a, w.names[b] if isinstance(b, int) and b >= 0 else b)))
-                if ok:
+                if RE_SETUP.match(line):
                     up.append(i)
-            elif kind == 'teardown':
+                continue
+            m = RE_TEARDOWN_START.match(line)
+            if m:
+                a = m.group(1)
                 i = idx(a)
                 for d in up:
                     if isinstance(d, int) and d >= 0 and isinstance(i, int) and w.is_base_of(i, d):
                         viol.append(('C01/claimed-teardown-before-derived',
                                      'output: "Tear down %s" while derived %s is set up' % (a, w.names[d])))
                 if i not in up:
-                    viol.append(('C01/claimed-teardown-while-not-set-up', 'output: "Tear down %s" but it is not set up' % a))
+                    viol.append(('C01/claimed-teardown-while-not-set-up',
+                                 'output: "Tear down %s" but it is not set up' % a))
                 else:
                     up.remove(i)
-            elif kind == 'ran' and a > 0:
+                continue
+            m = RE_RAN.match(line)
+            if m and int(m.group(1)) > 0:
                 need = clo(idx(blk.layer))
                 if set(up) != need:
                     viol.append(('C01/claimed-wrong-layers-at-tests',
                                  'output: tests of %s ran with %s set up' % (blk.layer, up)))
-        if blk.subprocess and up:
+        if in_child and up:
             viol.append(('C01/claimed-never-torn-down', 'output: subprocess for %s left %s set up' % (blk.layer, up)))
     for name, st in parsed.leftover:
         i = idx(name)
